@@ -65,13 +65,14 @@ struct Verdict { int viol_at = -1, done_at = -1, unk_at = -1; bool weak = false;
 // records and ignores retransmissions, so "fatal" is not required; but whatever it drops or ignores is in the sender's transcript (the puppet hashes what it sent, with
 // consecutive message_seq), so after ANY handshake/CCS deviation - including a dropped record, a message_seq gap or repeat - completion is impossible for a correct
 // receiver.  Non-handshake records before completion (application data, alerts) may be dropped without consequence: never delivered, completion still possible.
-static Verdict judge(bool victim_server, bool ecdhe, bool cauth, bool resumed, const std::vector<Tk> &tk, bool dtls = false) {
+static Verdict judge(bool victim_server, bool ecdhe, bool cauth, bool resumed, const std::vector<Tk> &tk, bool dtls = false, bool nst = false) {
     struct E { int t; bool opt; };
     std::vector<E> e;
     if (dtls && !victim_server) e.push_back({ T_HVR, true });
     if (dtls && victim_server) e.push_back({ T_CH, false });
     if (victim_server) { e.push_back({ T_CH, false }); if (!resumed) { if (cauth) e.push_back({ T_CERT, false }); e.push_back({ T_CKE, false }); if (cauth) e.push_back({ T_CV, false }); } }
     else { e.push_back({ T_SH, false }); if (!resumed) { e.push_back({ T_CERT, false }); if (ecdhe) e.push_back({ T_SKE, false }); e.push_back({ T_CR, true }); e.push_back({ T_SHD, false }); } }
+    if (nst) e.push_back({ T_NST, false });   // the ServerHello acknowledged the SessionTicket extension: exactly one NewSessionTicket precedes the server's CCS (RFC 5077 3.3)
     e.push_back({ T_CCS, false }); e.push_back({ T_FIN, false });
     Verdict v; size_t k = 0;
     for (size_t i = 0; i < tk.size(); i++) {
@@ -154,9 +155,16 @@ static bool is_dtls_mode(int sv) { return SV[sv].dtls; }
 //   (RFC 5077 3.3: a ticket is only valid once the server's Finished has been verified): connection 2 is a full handshake.
 // cticket (server victim only; the server keys always have session-ticket keys loaded): the puppet client offers the SessionTicket extension, 1 = empty,
 //   2 = with a ticket the server never issued.  The server acknowledges it and sends a NewSessionTicket before its CCS (state "ticket expected" on both sides).
-struct Mode { bool victim_server; int sv; bool cauth; int ems; bool resumed = false; bool ticket = false; int cut = 0; bool cut_err = false; int cticket = 0; };
+// tonly (client victim only, RFC 5077 3.4 "ticket only" client): the first handshake was answered with an EMPTY session id and a NewSessionTicket, so the client's
+//   sslSessionId_t holds only the ticket and its next ClientHello carries the ticket and no session id; MatrixSSL then waits "in limbo" for either the next
+//   full-handshake message or a ChangeCipherSpec.  1 = ticket accepted silently (ServerHello without the extension | CCS Finished under the ticket's secret),
+//   2 = accepted with extension + new NewSessionTicket, 3 = declined: full handshake, 4 = declined: full handshake with a fresh NewSessionTicket.
+//   tsid: the ServerHello of the connection under test carries a fresh session id instead of an empty one.  (resumed is set for 1 and 2.)
+struct Mode { bool victim_server; int sv; bool cauth; int ems; bool resumed = false; bool ticket = false; int cut = 0; bool cut_err = false; int cticket = 0; int tonly = 0; bool tsid = false; };
+static bool mode_nst(const Mode &m) { return m.tonly == 2 || m.tonly == 4; }   // the server under test acknowledges the SessionTicket extension and sends a NewSessionTicket
 static std::string mode_str(const Mode &m) { static const char *en[] = { "both", "puppet-off", "victim-off", "both-off" };
     return fmt("victim=%s %s %s cauth=%d ems=%s", m.victim_server ? "server" : "client", SV[m.sv].name,
+               m.tonly ? fmt("ticket-only-%s%s", m.tonly == 1 ? "accepted-silently" : m.tonly == 2 ? "accepted+new-ticket" : m.tonly == 3 ? "declined" : "declined+new-ticket", m.tsid ? "(fresh-id)" : "(empty-id)").c_str() :
                m.cticket ? (m.cticket == 1 ? "full+ticket-ext" : "full+bogus-ticket") :
                m.cut ? fmt("ticket-from-cut-handshake(%s%s)", m.cut == 1 ? "after-SHD" : m.cut == 2 ? "after-NST" : "after-NST+CCS", m.cut_err ? ",alert" : "").c_str() :
                m.ticket ? (m.resumed ? "id+ticket-accepted" : "id+ticket-declined") : m.resumed ? "resumed" : "full", m.cauth, en[m.ems]); }
@@ -185,7 +193,7 @@ static Outcome run_trace(const Mode &m, const std::vector<Item> &items, size_t c
     if (vc.client) vc.suites = { sv.suite };
     vc.client_auth = m.cauth; vc.cert_cb = m.victim_server ? cb_accept_valid : nullptr;
     if (m.ems >= 2) vc.ems = -1;
-    if (m.ticket || m.cut) vc.tickets = true;
+    if (m.ticket || m.cut || m.tonly) vc.tickets = true;
     pup::Config pc; pc.role = m.victim_server ? pup::CLIENT : pup::SERVER; pc.version = sv.wire; pc.suite = sv.suite; pc.ems = !(m.ems == 1 || m.ems == 3);
     pc.client_auth = m.cauth; pc.seed = seed; pc.pki_dir = verif_dir() + "/pki"; pc.dtls = sv.dtls;
     if (m.cticket) { pc.offer_ticket_ext = true; if (m.cticket == 2) pc.client_ticket.assign(120, 0x5a); }
@@ -203,13 +211,18 @@ static Outcome run_trace(const Mode &m, const std::vector<Item> &items, size_t c
         if (m.cut_err) { Step al(pup::M_ALERT); al.payload = { 2, 80 }; Bytes b = P0.emit(al); V0.feed(b); }
         if (V0.hs_complete() || V0.complete_evt || (!m.cut_err && victim_dead(V0))) { o.open_failed = true; return o; }
         V0.close();
-    } else if (m.resumed || m.ticket) {
+    } else if (m.resumed || m.ticket || m.tonly) {
         if (vc.client) { if (matrixSslNewSessionId(&sid, NULL) < 0) { o.open_failed = true; return o; } vc.sid = sid; }
         Endpoint V0; if (V0.open(vc) < 0) { o.open_failed = true; return o; }
-        pup::Config pc0 = pc; pc0.seed = seed + 7777; pc0.ack_ticket_ext = m.ticket; pup::Puppet12 P0(pc0);   // ticket mode: session id + NewSessionTicket
+        pup::Config pc0 = pc; pc0.seed = seed + 7777; pc0.ack_ticket_ext = m.ticket || m.tonly; pc0.server_empty_session_id = m.tonly != 0; pup::Puppet12 P0(pc0);   // ticket modes: (empty) session id + NewSessionTicket
         V0.pump_out(); P0.feed(V0.take_wire());
         for (auto &st : pup::legal_script(pc0)) { Bytes b = P0.emit(st); if (!b.empty()) V0.feed(b); V0.pump_out(); P0.feed(V0.take_wire()); }
         if (!V0.hs_complete() || !P0.peer_finished_ok() || victim_dead(V0)) { o.open_failed = true; return o; }
+        if (m.tonly) {   // the server issued the ticket, so it knows the secret inside: accept = resume from it; decline = it is still what a keyed peer would try under a stray CCS
+            if (!P0.have_master()) { o.open_failed = true; return o; }
+            if (m.tonly <= 2) pc.ticket_master = P0.master_secret(); else pc.master_override = P0.master_secret();
+            pc.ack_ticket_ext = mode_nst(m); empty_sid = empty_sid || !m.tsid;
+        } else
         if (m.resumed) { pc.resume = P0.session(); if (!pc.resume.valid()) { o.open_failed = true; return o; } }
     }
     // wrong-session-secret deviation: the puppet keys the abbreviated handshake with a master secret that is not the session's
@@ -252,7 +265,7 @@ static Outcome run_trace(const Mode &m, const std::vector<Item> &items, size_t c
 
 static Bytes bytes_of(const char *s) { return Bytes(s, s + strlen(s)); }
 static std::vector<Item> base_items(const Mode &m) {
-    pup::Config pc; pc.role = m.victim_server ? pup::CLIENT : pup::SERVER; pc.suite = SV[m.sv].suite; pc.client_auth = m.cauth; pc.dtls = SV[m.sv].dtls;
+    pup::Config pc; pc.role = m.victim_server ? pup::CLIENT : pup::SERVER; pc.suite = SV[m.sv].suite; pc.client_auth = m.cauth; pc.dtls = SV[m.sv].dtls; pc.ack_ticket_ext = mode_nst(m);
     std::vector<Item> it; for (auto &s : pup::legal_script(pc, m.resumed)) { Item x; x.st = s; it.push_back(x); }
     return it;
 }
@@ -276,12 +289,13 @@ static std::string selftest_mode(const Mode &m) {
     if (o.dead) return d + ": victim reported an error on the honest script";
     if (o.resumed != m.resumed) return d + fmt(": resumed=%d, expected %d", o.resumed, m.resumed);
     if (m.cticket && !o.victim_sent_nst) return d + ": the server did not issue a NewSessionTicket although the client offered the extension";
+    if (m.tonly && (o.ch_sid_len != 0 || o.ch_ticket_len == 0)) return d + fmt(": the ticket-only client's ClientHello should carry a ticket and no session id (id %zu bytes, ticket %zu bytes)", o.ch_sid_len, o.ch_ticket_len);
     if (m.ticket && (o.ch_sid_len == 0 || o.ch_ticket_len == 0)) return d + fmt(": the client's ClientHello should carry a session id and a ticket (id %zu bytes, ticket %zu bytes)", o.ch_sid_len, o.ch_ticket_len);
     return "";
 }
 static const std::string &selftest(const Mode &m) {
     static std::map<std::string, std::string> done;
-    std::string key = mode_str(m) + fmt("|%d%d%d%d%d", m.resumed, m.ticket, m.cut, m.cut_err, m.cticket);
+    std::string key = mode_str(m) + fmt("|%d%d%d%d%d%d%d", m.resumed, m.ticket, m.cut, m.cut_err, m.cticket, m.tonly, m.tsid);
     auto f = done.find(key); if (f != done.end()) return f->second;
     return done[key] = selftest_mode(m);
 }
@@ -461,6 +475,12 @@ static std::vector<Mode> enum_modes() {
         // client whose session id went through a handshake that was cut after the server's NewSessionTicket (and two neighbouring cut points)
         if (vs == 0 && ems == 0 && (sv == 0 || sv == 1 || sv == 4)) { Mode m; m.victim_server = false; m.sv = sv; m.cauth = false; m.ems = 0; m.cut = sv == 4 ? 3 : 2; m.cut_err = sv == 1; r.push_back(m); }
         if (vs == 0 && ems == 0 && sv == 0) { Mode m; m.victim_server = false; m.sv = sv; m.cauth = true; m.ems = 0; m.cut = 1; m.cut_err = true; r.push_back(m); }
+        // ticket-only client (RFC 5077 3.4): accepted silently / accepted with a new ticket / declined / declined with a new ticket; RSA and ECDHE, TLS 1.2 and 1.1
+        if (vs == 0 && (sv == 0 || sv == 1 || sv == 4 || sv == 5) && (ems == 0 || sv == 1))
+            for (int k = 1; k <= 4; k++) {
+                if ((sv >= 4 || ems) && (k == 2 || k == 4)) continue;
+                Mode m; m.victim_server = false; m.sv = sv; m.cauth = false; m.ems = ems; m.tonly = k; m.tsid = (k + sv) & 1; m.resumed = k <= 2; r.push_back(m);
+            }
         // server with ticket keys whose client offers the SessionTicket extension (empty / bogus ticket): NewSessionTicket is expected - from the server only
         if (vs == 1 && ems == 0 && (sv == 0 || sv == 1)) { Mode m; m.victim_server = true; m.sv = sv; m.cauth = sv == 1; m.ems = 0; m.cticket = 1 + sv; r.push_back(m); }
     }
@@ -511,8 +531,9 @@ static void prop(Tape &t, Ctx &c) {
     uint32_t seed = t.u16();
     m.resumed = rk == 0;
     if (rk == 4 && !m.victim_server) { m.ticket = true; m.resumed = seed & 1; }
+    if (rk == 4 && !m.victim_server && (seed & 8)) { m.ticket = false; m.tonly = 1 + (int) ((seed >> 4) & 3); m.tsid = (seed >> 6) & 1; m.resumed = m.tonly <= 2; m.cauth = m.cauth && m.tonly >= 3; }   // ticket-only client
     bool dtls = is_dtls_mode(m.sv);
-    if (dtls) { m.resumed = false; m.ticket = false; rk = 1; }   // DTLS: full handshakes (with / without client authentication) only
+    if (dtls) { m.resumed = false; m.ticket = false; m.tonly = 0; m.tsid = false; rk = 1; }   // DTLS: full handshakes (with / without client authentication) only
     if (rk == 3 && m.victim_server) m.cticket = 1 + (seed & 1);   // server with ticket keys + client offering the SessionTicket extension
     if (rk == 3 && !m.victim_server) { m.cut = 1 + (int) ((seed >> 1) % 3); if (m.cut == 1 && (seed & 8)) m.cut = 2; m.cut_err = seed & 1; }   // ticket-from-cut-handshake, mostly cut after NewSessionTicket
     unsigned nsel = (unsigned) t.below(10); int nops = nsel == 0 ? 0 : nsel <= 5 ? 1 : 2;   // single deviations are also enumerated completely by c06_seq12_singles
@@ -559,19 +580,29 @@ static void prop(Tape &t, Ctx &c) {
 
     std::vector<Tk> tk = tokenize(it, is_dtls_mode(m.sv));
     bool ecdhe = pup::suite_is_ecdhe(SV[m.sv].suite);
-    Verdict v = judge(m.victim_server, ecdhe, m.cauth, m.resumed, tk, is_dtls_mode(m.sv));
     const bool dtls_mode = is_dtls_mode(m.sv);
     int secret = 0; bool empty_sid = false; for (auto &op : ops) if (op.kind == O_SECRET) { secret = (op.arg & 1) + 1; empty_sid = (op.arg & 2) != 0; }
+    bool lang_resumed = m.resumed;   // which of the two languages the verdict below belongs to
+    Verdict v = judge(m.victim_server, ecdhe, m.cauth, m.resumed, tk, dtls_mode, mode_nst(m));
+    if (m.tonly) {
+        // A ticket-only client cannot know from the ServerHello whether its ticket was taken: BOTH continuations are legal - the abbreviated one (keyed with the
+        // ticket's secret, which the puppet holds in every ticket-only mode) and the full one; a trace is illegal only if it leaves both languages.
+        Verdict va = judge(false, ecdhe, m.cauth, true, tk, false, mode_nst(m)), vf = judge(false, ecdhe, m.cauth, false, tk, false, mode_nst(m));
+        if (secret && va.done_at >= 0) { va.viol_at = va.done_at; va.done_at = -1; va.unk_at = -1; va.weak = false; va.why = "Finished (and record protection) computed under a master secret that is not the ticket's"; }
+        auto rank = [](const Verdict &x) { return x.viol_at < 0 ? 1000000 : x.viol_at; };   // how far the trace stays inside the language
+        bool take_a = rank(va) >= rank(vf); if (rank(va) == rank(vf) && vf.done_at >= 0 && va.done_at < 0) take_a = false;
+        v = take_a ? va : vf; lang_resumed = take_a;
+    }
     if (secret) {
         // "the peer's Finished value matches the receiver's own transcript" is meant under the session's own secret: whatever else the trace does, a peer
         // that keys an abbreviated handshake with another master secret must never get a completed handshake
         // (only where the puppet really uses it: a trace that is legal for a FULL handshake contains a ClientKeyExchange, which makes the puppet compute the real secret)
-        if (m.resumed && v.done_at >= 0) { v.viol_at = v.done_at; v.done_at = -1; v.unk_at = -1; v.weak = false; v.why = "Finished (and record protection) computed under a master secret that is not the session's"; }
+        if (m.resumed && !m.tonly && v.done_at >= 0) { v.viol_at = v.done_at; v.done_at = -1; v.unk_at = -1; v.weak = false; v.why = "Finished (and record protection) computed under a master secret that is not the session's"; }
         if (v.viol_at >= 0 && v.done_at < 0) v.sig = fmt("completed-resumption-with-foreign-secret:%s", secret == 1 ? "zero" : "random");
     }
     // data right behind the puppet's Finished while the victim's Finished is still outstanding (client in a full handshake, server in an abbreviated one):
     // RFC 5246 7.4.9 says wait, RFC 7918 false start says a client may; the receiver may or may not take it
-    if (false_start && m.victim_server != m.resumed) { v.weak = true; c.count("false-start-data"); }
+    if (false_start && m.victim_server != lang_resumed) { v.weak = true; c.count("false-start-data"); }
     // A handshake message whose first fragment does not hold the complete 4-byte header is answered with decode_error (legal per RFC 5246 6.2.1, a conformance
     // limit): safety invariants only.  Every other fragmentation - including Finished and CertificateVerify, which need the transcript snapshot taken when the
     // LAST fragment arrives - is part of the legal language.
@@ -591,10 +622,10 @@ static void prop(Tape &t, Ctx &c) {
     // ---- safety invariants (every case)
     VF_CHECK(!o.early_delivery, "appdata-delivered-before-handshake-complete", "APP_DATA delivered while matrixSslHandshakeIsComplete()==false; %s", desc.c_str());
     std::string sig = v.sig.empty() ? "completed-illegal-trace" : v.sig;
-    std::string shape = fmt("%d|%d|%d|%d%d%d%d|", m.victim_server, m.sv, m.cauth, m.resumed, m.ticket, m.cut, m.cticket);
+    std::string shape = fmt("%d|%d|%d|%d%d%d%d%d|", m.victim_server, m.sv, m.cauth, m.resumed, m.ticket, m.cut, m.cticket, m.tonly);
     for (auto &op : ops) shape += fmt("%d.%d.%d|", op.kind, op.pos, (op.kind == O_SUBST || op.kind == O_INJECT || op.kind == O_RETAG || op.kind == O_SECRET || op.kind == O_FINFRAG || op.kind == O_CVFRAG) ? op.arg : 0);
     c.count(fmt("ops:%d", (int) ops.size())); for (auto &op : ops) c.count(std::string("op:") + op_name[op.kind]);
-    c.count(std::string("victim:") + (m.victim_server ? "server" : "client")); c.count(std::string("sv:") + SV[m.sv].name); c.count(m.cticket ? "kind:full+client-ticket-ext" : m.cut ? "kind:ticket-from-cut-handshake" : m.ticket ? (m.resumed ? "kind:id+ticket-accepted" : "kind:id+ticket-declined") : m.resumed ? "kind:resumed" : "kind:full");
+    c.count(std::string("victim:") + (m.victim_server ? "server" : "client")); c.count(std::string("sv:") + SV[m.sv].name); c.count(m.tonly ? (m.tonly <= 2 ? "kind:ticket-only-accepted" : "kind:ticket-only-declined") : m.cticket ? "kind:full+client-ticket-ext" : m.cut ? "kind:ticket-from-cut-handshake" : m.ticket ? (m.resumed ? "kind:id+ticket-accepted" : "kind:id+ticket-declined") : m.resumed ? "kind:resumed" : "kind:full");
     if (o.ever_complete) c.count("victim-completed");
 
     if (v.viol_at >= 0 && v.done_at < 0) {
